@@ -172,7 +172,8 @@ Proof. intros. split; [apply tie_joint_traj_w | apply tie_joint_traj]. Qed.
 Print Assumptions C09_joint_longitudinal.
 
 (** ---- estimate: layout.  [f i t] is the row of individual i at age t (what the theorems above describe);
-    [pointwise f] computes a list of ages age by age, which is how the closed forms act on the age tensor. *)
+    [pointwise f] computes the ages it is given age by age (a unique age = the list of that age), which is how the
+    closed forms act on the age tensor. *)
 Section EstimateLayout.
   Variables ID T V : Type.
   Variable id_eqb id_leb : ID -> ID -> bool.
@@ -182,31 +183,40 @@ Section EstimateLayout.
   Variable f : ID -> T -> V.
   Let est := estimate ID T V id_eqb id_leb t_eqb (pointwise ID T V f).
 
-  (** dict request: same keys, same order, and for each key one row per requested age in the requested order
-      (ages unsorted, repeated or single alike) *)
+  (** dict request (each value "a unique time-point or a list of time-points"): same keys, same order, and for each key
+      one row per requested age in the requested order (ages unsorted, repeated, single or scalar alike) *)
   Theorem C09_estimate_dict : forall (req : request ID T) (to_dataframe : option bool),
     to_dataframe = None \/ to_dataframe = Some false ->
-    est (InDict req) to_dataframe = OutDict (map (fun r => (fst r, map (f (fst r)) (snd r))) req).
+    est (InDict req) to_dataframe = OutDict (map (fun r => (fst r, map (f (fst r)) (atleast_1d T (snd r)))) req).
   Proof. exact (estimate_dict ID T V id_eqb id_leb t_eqb f). Qed.
 
   Theorem C09_estimate_dict_frame : forall req : request ID T,
     est (InDict req) (Some true) =
-    OutFrame (flat_map (fun r => map (fun t => (fst r, t, Some (f (fst r) t))) (snd r)) req).
+    OutFrame (flat_map (fun r => map (fun t => (fst r, t, Some (f (fst r) t))) (atleast_1d T (snd r))) req).
   Proof. exact (estimate_dict_frame ID T V id_eqb id_leb t_eqb f). Qed.
 
-  (** MultiIndex request without repeated (ID, TIME) pair: exactly the requested rows, in the requested order *)
+  (** a unique age is accepted wherever a list is, with every output form, and means the list of that age *)
+  Theorem C09_estimate_dict_scalar : forall (req1 : request ID T) (i : ID) (t : T) (req2 : request ID T)
+                                            (to_dataframe : option bool),
+    est (InDict (req1 ++ (i, One t) :: req2)) to_dataframe = est (InDict (req1 ++ (i, Many [t]) :: req2)) to_dataframe
+    /\ est (InDict [(i, One t)]) (Some true) = OutFrame [(i, t, Some (f i t))]
+    /\ est (InDict [(i, One t)]) None = OutDict [(i, [f i t])].
+  Proof. exact (estimate_dict_scalar_full ID T V id_eqb id_leb t_eqb f). Qed.
+
+  (** MultiIndex request — EVERY request, repeated (ID, TIME) pairs, interleaved individuals and unsorted ages included:
+      exactly the requested rows, in the requested order, one per requested row, each holding the value of its own
+      (ID, TIME) *)
   Theorem C09_estimate_index : forall (ix : index ID T) (to_dataframe : option bool),
     to_dataframe = None \/ to_dataframe = Some true ->
-    NoDup ix ->
     est (InIndex ix) to_dataframe = OutFrame (map (fun k => (fst k, snd k, Some (f (fst k) (snd k)))) ix).
   Proof. exact (estimate_index ID T V id_eqb id_leb t_eqb id_eqb_spec t_eqb_spec f). Qed.
 
-  (** in general every requested row comes back once per occurrence of its pair in the request *)
-  Theorem C09_estimate_index_general : forall (ix : index ID T) (to_dataframe : option bool),
+  (** the same read row by row *)
+  Theorem C09_estimate_index_rowwise : forall (ix : index ID T) (to_dataframe : option bool),
     to_dataframe = None \/ to_dataframe = Some true ->
-    est (InIndex ix) to_dataframe =
-    OutFrame (flat_map (fun k => repeat (fst k, snd k, Some (f (fst k) (snd k))) (count ID T id_eqb t_eqb k ix)) ix).
-  Proof. exact (estimate_index_general ID T V id_eqb id_leb t_eqb id_eqb_spec t_eqb_spec f). Qed.
+    exists rows, est (InIndex ix) to_dataframe = OutFrame rows /\ List.length rows = List.length ix /\
+      forall n i t, nth_error ix n = Some (i, t) -> nth_error rows n = Some (i, t, Some (f i t)).
+  Proof. exact (estimate_index_rowwise ID T V id_eqb id_leb t_eqb id_eqb_spec t_eqb_spec f). Qed.
 
   (** MultiIndex request, dict output: the requested individuals (each once, in pandas' sorted group order), each with
       its requested ages in the requested order *)
@@ -219,16 +229,7 @@ Section EstimateLayout.
 End EstimateLayout.
 Print Assumptions C09_estimate_dict.
 Print Assumptions C09_estimate_dict_frame.
+Print Assumptions C09_estimate_dict_scalar.
 Print Assumptions C09_estimate_index.
-Print Assumptions C09_estimate_index_general.
+Print Assumptions C09_estimate_index_rowwise.
 Print Assumptions C09_estimate_index_dict.
-
-(** ---- finding F8: with a repeated pair the faithful model returns 6 rows for 4 requested
-    (witness: MultiIndex [(b,75); (a,70); (b,71); (b,75)], replayed on the code by the harness) *)
-Theorem C09_estimate_index_refuted :
-  (exists (ix : index string Q) rows,
-     estimate_tag (InIndex ix) None = OutFrame rows /\ List.length ix = 4%nat /\ List.length rows = 6%nat)
-  /\ ~ (forall ix : index string Q,
-          estimate_tag (InIndex ix) None = OutFrame (map (fun k => (fst k, snd k, Some (tag (fst k) (snd k)))) ix)).
-Proof. split; [exact f8_refuted | exact estimate_index_refuted]. Qed.
-Print Assumptions C09_estimate_index_refuted.
